@@ -599,6 +599,29 @@ func TestStreams(t *testing.T) {
 			run(tw, stream{dir: "sb", thr: thr, b: b.Bytes(), src: "emptyrun"}, stt, seen)
 		}
 	}
+	// 3b. long-lived decoders: empty frames spread between real frames, never more than 10 in a
+	// row but many in total (11, 12, 25, 60): every real payload must still come out
+	for _, total := range []int{11, 12, 25, 60} {
+		for _, thr := range []int{-1, 64} {
+			for _, rl := range []int{1, 3, 10} {
+				var b bytes.Buffer
+				left := total
+				for i := 0; left > 0; i++ {
+					k := min(rl, left)
+					for j := 0; j < k; j++ {
+						if thr >= 0 && (i+j)%2 == 1 {
+							b.Write([]byte{1, 0})
+						} else {
+							b.WriteByte(0)
+						}
+					}
+					left -= k
+					b.Write(goodFrame(randPayload(rng, 1+rng.Intn(90)), thr))
+				}
+				run(tw, stream{dir: []string{"sb", "cb"}[rl%2], thr: thr, b: b.Bytes(), src: "emptyspread"}, stt, seen)
+			}
+		}
+	}
 	// 4. mutated valid streams
 	nMut := tracefmt.EnvInt("VERIF_MUT", 1500)
 	for i := 0; i < nMut; i++ {
